@@ -2,7 +2,7 @@
 from c03_mpn import copy_loop
 from c03_mpz import split_alias
 UNITS = []
-CT = ['mpn.h', 'mpz.h', 'mpf.h']
+CT = ['mpn.h', 'mpz.h', 'c11.h', 'mpf.h']
 def mpf_obj(n):
     return ('''  __mpf_struct %(n)s; { long pr = nondet_long (); __CPROVER_assume (1 <= pr && pr < V_ZMAX);
     %(n)s._mp_prec = pr; %(n)s._mp_d = malloc ((pr + 1) * 8); __CPROVER_assume (%(n)s._mp_d != (void *) 0); %(n)s._mp_size = nondet_long (); %(n)s._mp_exp = nondet_long (); }
